@@ -278,7 +278,7 @@ def _run_history(spec):
     if spec.get("reuse_options"):
         # ONE SolverOptions object: the earlier run used it with adaptive=False; the user then flips adaptive on and runs again
         y = copy.deepcopy(spec)
-        y["options"].update(adaptive=False, solve_time=30 * spec["options"]["dt_init"])
+        y["options"].update(adaptive=False, solve_time=30 * spec["options"]["dt_init"], terminal_psi=0.0)
         y["options"].pop("auto_dt", None)
         opts_obj = sim.build_options(y["options"], output_file=None)
     r0 = sim.run_sim(y, [], device=used, options_obj=opts_obj)
@@ -294,6 +294,7 @@ def _run_history(spec):
     if opts_obj is not None:
         opts_obj.adaptive = True
         opts_obj.solve_time = spec["options"]["solve_time"]
+        opts_obj.terminal_psi = sim.build_options(spec["options"], output_file=None).terminal_psi
     for label, d in (("used_device", used), ("fresh_device", fresh)):
         tm = simmon.TraceMonitor()
         rr = sim.run_sim(spec, [tm], device=d, keep_dir=True, options_obj=opts_obj if label == "used_device" else None)
